@@ -182,6 +182,7 @@ func (e *Variable) Assign(newVal reflect.Value, dataContext IDataContext, memory
 		if err == nil {
 			dataContext.IncrementVariableChangeCount()
 			memory.ResetVariable(e)
+			memory.ResetAliases(e)
 		}
 
 		return err
@@ -201,6 +202,7 @@ func (e *Variable) Assign(newVal reflect.Value, dataContext IDataContext, memory
 			err := e.Variable.ValueNode.SetArrayValueAt(int(e.ArrayMapSelector.Value.Int()), newVal)
 			if err == nil {
 				memory.ResetVariable(e)
+				memory.ResetAliases(e)
 			}
 
 			return err
@@ -209,6 +211,7 @@ func (e *Variable) Assign(newVal reflect.Value, dataContext IDataContext, memory
 			err := e.Variable.ValueNode.SetMapValueAt(e.ArrayMapSelector.Value, newVal)
 			if err == nil {
 				memory.ResetVariable(e)
+				memory.ResetAliases(e)
 			}
 
 			return err
